@@ -38,6 +38,7 @@ class _Child:
 
     def __init__(self, root, ctl, plan):
         self.root = os.path.realpath(root)
+        self.tmp = self.root + '.tmpfs'       # the simulated machine's $TMPDIR: a second file system (see sim_rename)
         self.ctl = ctl
         self.plan = plan or {}
         self.fault = self.plan.get('fault')
@@ -68,6 +69,10 @@ class _Child:
             return '.'
         if ap.startswith(self.root + os.sep):
             return ap[len(self.root) + 1:]
+        if ap == self.tmp:
+            return '//tmp'
+        if ap.startswith(self.tmp + os.sep):
+            return '//tmp/' + ap[len(self.tmp) + 1:]
         return None
 
     # -- effect gate
@@ -449,6 +454,7 @@ def _install(ch):
             if file in ch.fdpaths and any(c in mode for c in 'wax') and '+' not in mode:
                 pth, rl = ch.fdpaths.pop(file)
                 return SimWriteFile(ch, pth, rl, mode, encoding, errors, newline, fd=file)
+            ch.fdpaths.pop(file, None)
             return _real_open(file, mode, buffering, encoding, errors, newline, closefd, opener)
         rel = ch.rel(file)
         writing = any(c in mode for c in 'wax+')
@@ -522,13 +528,22 @@ def _install(ch):
             raise PermissionError(errno_mod.EACCES, 'tallysim: %s outside world' % op, os.fspath(path))
         return rel
 
+    def xdev(rs, rd, src, dst):
+        # $TMPDIR is another file system than the budget (tmpfs /tmp is the common case) unless the plan says otherwise:
+        # rename, replace and link across the boundary fail with EXDEV and change nothing
+        if rs.startswith('//tmp') != rd.startswith('//tmp') and plan.get('tmpdev', 'other') == 'other':
+            ch.log({'k': 'exdev', 'src': rs, 'dst': rd})
+            raise OSError(errno_mod.EXDEV, os.strerror(errno_mod.EXDEV), os.fspath(src), None, os.fspath(dst))
+
     def sim_rename(src, dst, *a, **kw):
         rs, rd = guard(src, 'rename'), guard(dst, 'rename')
+        xdev(rs, rd, src, dst)
         ch.effect('rename', src=rs, dst=rd)
         return _real_os['rename'](src, dst, *a, **kw)
 
     def sim_replace(src, dst, *a, **kw):
         rs, rd = guard(src, 'replace'), guard(dst, 'replace')
+        xdev(rs, rd, src, dst)
         ch.effect('rename', src=rs, dst=rd)
         return _real_os['replace'](src, dst, *a, **kw)
 
@@ -582,6 +597,7 @@ def _install(ch):
 
     def sim_link(src, dst, *a, **kw):
         rs, rd = guard(src, 'link'), guard(dst, 'link')
+        xdev(rs, rd, src, dst)
         ch.effect('link', src=rs, dst=rd)
         return _real_os['link'](src, dst, *a, **kw)
 
@@ -620,6 +636,7 @@ def _install(ch):
                 self.k += 1
                 return 'tsim%04d' % self.k
         tempfile._name_sequence = _Names()
+        tempfile.tempdir = ch.tmp           # no probing of candidate directories; files there are effects like any other
         import random as _random
         _random.seed(0)
         import uuid as _uuid
@@ -792,7 +809,7 @@ def _install(ch):
 
     # ---- environment
     env = {'NO_COLOR': '1', 'COLUMNS': '80', 'TZ': 'UTC', 'LC_ALL': 'C.UTF-8', 'PATH': '',
-           'HOME': '/nonexistent', 'PYTHONHASHSEED': os.environ.get('PYTHONHASHSEED', '0')}
+           'HOME': '/nonexistent', 'PYTHONHASHSEED': os.environ.get('PYTHONHASHSEED', '0'), 'TMPDIR': ch.tmp}
     env.update(plan.get('env') or {})
     os.environ.clear()
     os.environ.update(env)
@@ -890,6 +907,7 @@ def spawn(world, plan, target, cwd='.', ctl_parent=None, timeout=PROC_TIMEOUT_S)
     if os.path.isdir(ctl):
         shutil.rmtree(ctl)
     os.mkdir(ctl)
+    os.makedirs(os.path.realpath(world) + '.tmpfs', exist_ok=True)
     sys.stdout.flush()
     sys.stderr.flush()
     signal.pthread_sigmask(signal.SIG_BLOCK, [signal.SIGCHLD])
